@@ -3,6 +3,25 @@
 #include <math.h>
 #include <stdlib.h>
 
+#ifdef JTIOSUE_QUBOVERT_VERIF
+/* Verification hooks, see anneal_quso.c. */
+#include <stdio.h>
+extern long qvverif_checks, qvverif_mismatches, qvverif_bounds;
+static int qvverif_puso_len_state = 0;
+static long qvverif_puso_num_terms = 0;
+static double qvverif_puso_scale = 1.;
+static void qvverif_puso_report(const char *what, long a, double x, double y) {
+    if(qvverif_mismatches + qvverif_bounds <= 20) {
+        fprintf(stderr, "QVVERIF puso %s at %ld: %.17g vs %.17g\n",
+                what, a, x, y);
+    }
+}
+double puso_value(
+    int *state,
+    long num_terms, int *num_couplings, int *terms, double *couplings
+);
+#endif
+
 
 double puso_subgraph_value(
     int *state, int spin,
@@ -67,6 +86,16 @@ double puso_subgraph_value(
         product = 1;
         for(j=0; j<num_couplings[term]; j++) {
             // index[term] maps the term to where it starts in `terms`.
+#ifdef JTIOSUE_QUBOVERT_VERIF
+            qvverif_checks++;
+            if(term < 0 || term >= qvverif_puso_num_terms ||
+               terms[index[term] + j] < 0 ||
+               terms[index[term] + j] >= qvverif_puso_len_state) {
+                qvverif_bounds++;
+                qvverif_puso_report("term/spin index (puso_subgraph_value)",
+                                    (long)term, 0., (double)spin);
+            }
+#endif
             product *= state[terms[index[term] + j]];
         }
         value += couplings[term] * (double)product;
@@ -153,6 +182,24 @@ void single_anneal_puso(
                 state, i, num_couplings, terms, couplings,
                 index, subgraphs
             );
+#ifdef JTIOSUE_QUBOVERT_VERIF
+            if(len_state <= 128 || (qvverif_checks % 37) == 0) {
+                /* the dE used for the acceptance test versus the full energy */
+                double qv_before = puso_value(state, qvverif_puso_num_terms,
+                                              num_couplings, terms, couplings);
+                state[i] *= -1;
+                double qv_after = puso_value(state, qvverif_puso_num_terms,
+                                             num_couplings, terms, couplings);
+                state[i] *= -1;
+                qvverif_checks++;
+                if(fabs((qv_after - qv_before) - dE)
+                        > 1e-7 * qvverif_puso_scale) {
+                    qvverif_mismatches++;
+                    qvverif_puso_report("dE used vs E(after)-E(before)",
+                                        (long)i, dE, qv_after - qv_before);
+                }
+            }
+#endif
 
             if(dE <= 0 || (T > 0 && rand_double(rng) < exp(-dE / T))) {
                 state[i] *= -1;
@@ -277,6 +324,18 @@ void anneal_puso(  // updates states and values in place
     int *state = (int*)malloc(len_state * sizeof(int));
     rng_t rng = rand_init(seed);
 
+#ifdef JTIOSUE_QUBOVERT_VERIF
+    {
+        long qv_k;
+        qvverif_puso_len_state = len_state;
+        qvverif_puso_num_terms = num_terms;
+        qvverif_puso_scale = 1.;
+        for(qv_k=0; qv_k<num_terms; qv_k++) {
+            qvverif_puso_scale += fabs(couplings[qv_k]);
+        }
+    }
+#endif
+
     // create subgraphs and index. please see the Parameters and Example
     // sections in the comments of the `single_anneal_puso` function for info
     // on what these array are. But basically, `index[term]` maps a term
@@ -299,6 +358,15 @@ void anneal_puso(  // updates states and values in place
         }
         for(i=0; i<num_couplings[term]; i++) {
             j = terms[index[term] + i];  // spin j is involved in term `term`.
+#ifdef JTIOSUE_QUBOVERT_VERIF
+            qvverif_checks++;
+            if(j < 0 || j >= len_state) {
+                qvverif_bounds++;
+                qvverif_puso_report("spin index in terms[] (anneal_puso)",
+                                    (long)j, 0., (double)len_state);
+                continue;  /* do not follow the wild index */
+            }
+#endif
             subgraphs[j][0]++; k = subgraphs[j][0];
             subgraphs[j] = (long*)realloc(subgraphs[j], (k+1) * sizeof(long));
             subgraphs[j][k] = term;
